@@ -100,7 +100,7 @@ func cmdVC(args []string) int {
 	os.MkdirAll(*out, 0755)
 	for i, ob := range vc.Obs {
 		os.WriteFile(filepath.Join(*out, fmt.Sprintf("%03d.smt2", i)), []byte("; "+ob.Name+"\n"+buildQuery(vc, i, true)), 0644)
-		fmt.Printf("%03d %s\n", i, ob.Name)
+		fmt.Printf("%03d %s  :: %s\n", i, ob.Name, ob.Text)
 	}
 	return 0
 }
@@ -206,7 +206,7 @@ func cmdCheck(args []string) int {
 		seed, _ = strconv.Atoi(s)
 	}
 	thorough := *tier == "thorough"
-	to := 30
+	to := 60
 	if thorough {
 		to = 120
 	}
@@ -304,7 +304,64 @@ func cmdCheck(args []string) int {
 	solverSecs := map[string]float64{}
 	var wg sync.WaitGroup
 	sem := make(chan struct{}, 16)
+	// grouped obligations: one query for the whole group first; its `unsat` discharges every member,
+	// anything else sends the members to the individual queries below
+	{
+		type gkey struct {
+			j *fnJob
+			g string
+		}
+		groups := map[gkey][]int{}
+		var order []gkey
+		for _, r := range todo {
+			ob := r.j.vc.Obs[r.k]
+			if ob.Group == "" || ob.Result == "not-claimed" {
+				continue
+			}
+			k := gkey{r.j, ob.Group}
+			if _, ok := groups[k]; !ok {
+				order = append(order, k)
+			}
+			groups[k] = append(groups[k], r.k)
+		}
+		var wgg sync.WaitGroup
+		for _, gk := range order {
+			ks := groups[gk]
+			if len(ks) < 2 {
+				continue
+			}
+			wgg.Add(1)
+			sem <- struct{}{}
+			go func(gk gkey, ks []int) {
+				defer wgg.Done()
+				defer func() { <-sem }()
+				q := buildQueryMulti(gk.j.vc, ks, false)
+				res := raceUnsat(q, 20)
+				if res.Answer != "unsat" {
+					return
+				}
+				mu.Lock()
+				for _, k := range ks {
+					ob := gk.j.vc.Obs[k]
+					ob.Result, ob.Solver, ob.Secs = "unsat", res.Solver+" (group "+gk.g+")", res.Secs/float64(len(ks))
+				}
+				if perBackend[res.Solver] == nil {
+					perBackend[res.Solver] = map[string]int{}
+				}
+				perBackend[res.Solver]["unsat"] += len(ks)
+				solverSecs[res.Solver] += res.Secs
+				mu.Unlock()
+				if *verbose {
+					fmt.Fprintf(os.Stderr, "  group %-8s %-10s %5.2fs %s (%d obligations)\n", res.Answer, res.Solver, res.Secs, gk.g, len(ks))
+				}
+			}(gk, ks)
+		}
+		wgg.Wait()
+	}
 	for _, r := range todo {
+		if r.j.vc.Obs[r.k].Result == "unsat" {
+			continue
+		}
 		wg.Add(1)
 		sem <- struct{}{}
 		go func(r obRef) {
@@ -339,6 +396,46 @@ func cmdCheck(args []string) int {
 		}(r)
 	}
 	wg.Wait()
+	// second chance on a quiet machine: an obligation that ran out of time while all cores were busy
+	// is tried again, four at a time, before it is reported (a `sat` answer is never retried)
+	{
+		np := loadNotClaimed()
+		sem2 := make(chan struct{}, 4)
+		var wg3 sync.WaitGroup
+		for _, r := range todo {
+			ob := r.j.vc.Obs[r.k]
+			if ob.Result != "timeout" && ob.Result != "unknown" && ob.Result != "error" {
+				continue
+			}
+			if np[ob.Name] {
+				continue
+			}
+			wg3.Add(1)
+			sem2 <- struct{}{}
+			go func(r obRef) {
+				defer wg3.Done()
+				defer func() { <-sem2 }()
+				res, per := discharge(r.j.vc, r.k, to*2, thorough)
+				ob := r.j.vc.Obs[r.k]
+				mu.Lock()
+				if res.Answer == "unsat" || res.Answer == "sat" {
+					ob.Result, ob.Solver, ob.Secs, ob.Model = res.Answer, res.Solver+" (retry)", res.Secs, res.Output
+				}
+				for s, pr := range per {
+					if perBackend[s] == nil {
+						perBackend[s] = map[string]int{}
+					}
+					perBackend[s][pr.Answer]++
+					solverSecs[s] += pr.Secs
+				}
+				mu.Unlock()
+				if *verbose {
+					fmt.Fprintf(os.Stderr, "  retry %-8s %-10s %5.2fs %s\n", res.Answer, res.Solver, res.Secs, ob.Name)
+				}
+			}(r)
+		}
+		wg3.Wait()
+	}
 
 	// vacuity: every cover (function entry after the preconditions, every loop header after its
 	// invariants) must be reachable, i.e. "false" must not be provable there.
